@@ -7,7 +7,8 @@ from .. import common, libdiff, translate
 from ..common import coq_string, coq_list
 
 THEOREMS_A = ["c05_overlap_check_panics_iff_shared", "c05_overlap_check_passes_iff_disjoint",
-              "c05_overlap_check_total"]
+              "c05_overlap_check_total", "c05_published_list_sorted", "c05_published_list_is_wire_names",
+              "c05_contract_compiles_iff_no_shared_name"]
 
 ALPHA = ["a", "ab", "b", "ba_c"]
 ALPHA2 = ["msg_a", "msg_b", "msg_b1", "msg", "ms", "n", "", "zz", "msg_a_", "Msg_a", "msg__a"]
